@@ -448,6 +448,18 @@ Fixpoint m_single_stream (es : list pentry) (holder : list ((Z * Z) * Z)) : bool
       else m_single_stream r holder
   end.
 
+(* stream-level commit numbers (stream.commit stores) never decrease: a lower one stored after a higher one leaves
+   commitSeq behind awaySeq for ever (the stream can no longer detach) *)
+Fixpoint m_scommit_monotone (es : list pentry) (lastc : list (Z * Z)) : bool :=
+  match es with
+  | [] => true
+  | e :: r =>
+      if is_k 2 25 e then
+        (match last_of (poi e) lastc with Some v => v <=? pa e | None => true end) &&
+        m_scommit_monotone r ((poi e, pa e) :: lastc)
+      else m_scommit_monotone r lastc
+  end.
+
 (* ---- C04 (pipeline part): no wedge observed ------------------------------------------------------ *)
 (* 103 stuck, 101 panic, 114 probe event: In-to-commit latency (a, ms) within its bound (b, ms) *)
 Definition m_no_wedge (es : list pentry) : bool :=
@@ -491,9 +503,11 @@ Definition quiescent (es : list pentry) : bool := no_kind 103 es.
 
 (* monitor ids: 1 wedge/panic observed, 2 per-stream commit order, 3 commit twice, 4 conservation,
    5 frontier, 6 commit not via an acknowledged batch, 7 pool conservation, 8 per-source frontier (spread),
-   9 time-out to an idle action, 10 busy action saw another stream, 11 a processor sleeps while a charged stream has no wake-up coming *)
+   9 time-out to an idle action, 10 busy action saw another stream, 11 a processor sleeps while a charged stream has no wake-up coming,
+   12 a stream's commit number moved backwards *)
 Definition c02_mon (c : pcfg) (es : list pentry) : list (Z * bool) :=
-  [(1, m_no_wedge es); (2, m_commits_increasing es [] []); (3, nodup_keys (input_commits es)); (4, m_conservation es)].
+  [(1, m_no_wedge es); (2, m_commits_increasing es [] []); (3, nodup_keys (input_commits es)); (4, m_conservation es);
+   (12, m_scommit_monotone es [])].
 Definition c01_mon (c : pcfg) (es : list pentry) : list (Z * bool) :=
   [(1, m_no_wedge es); (5, m_frontier es [] [] []);
    (6, (p_outkind c =? 0) ||
@@ -501,7 +515,7 @@ Definition c01_mon (c : pcfg) (es : list pentry) : list (Z * bool) :=
         m_outend_before_commit (of_b 1 (bentries es)) [] [] []))].
 Definition c05_mon (c : pcfg) (es : list pentry) : list (Z * bool) := [(1, m_no_wedge es); (7, m_pool_conservation true es)].
 Definition c04_mon (c : pcfg) (es : list pentry) : list (Z * bool) :=
-  [(1, m_no_wedge es); (4, m_conservation es); (11, m_no_sleeper es 0 0 0)].
+  [(1, m_no_wedge es); (4, m_conservation es); (11, m_no_sleeper es 0 0 0); (12, m_scommit_monotone es [])].
 Definition c10_mon (c : pcfg) (es : list pentry) : list (Z * bool) := [(1, m_no_wedge es); (8, m_source_frontier es [] [] [])].
 Definition c13_mon (c : pcfg) (es : list pentry) : list (Z * bool) := [(1, m_no_wedge es); (9, m_timeout_to_busy es)].
 Definition c15_mon (c : pcfg) (es : list pentry) : list (Z * bool) :=
